@@ -529,7 +529,7 @@ def _obligations():
         Obligation("O3.6", "generated names carry the padded ids and are parsed back to the same ids", o36, floor=40),
         Obligation("O3.7", "library calls on the RELION conversion paths exist in the installed pandas", o37, floor=20),
         Obligation("O3.8a", "STAR writer on the via-file path: header and row text read back to the table (shared with C02)", lambda ctx: (_star.o23(ctx), _star.o25(ctx)), floor=200),
-        Obligation("O3.8c", "STAR tokenizer / writer text on the via-file path: every line seen, text tokenised into the expected roles (shared with C02)", _star.o22, floor=8),
+        Obligation("O3.8c", "STAR tokenizer / writer text on the via-file path: every line seen, text tokenised into the expected roles (shared with C02)", lambda ctx: (_star.o22(ctx), _star.o26(ctx)), floor=230),
         Obligation("O3.8b", "STAR reader on the via-file path: numeric conversion and block tables (shared with C02)", _star.o24, floor=5),
     ]
 
